@@ -123,6 +123,8 @@ def run(ctx):
                 '0..p+2; scalar, contiguous and strided array arguments; routes: active_deriv, active_ev, single_ev, collocation(_info), '
                 'collocation_derivs(_info), assemble_tools.compute_values_derivs (dense table read by the assemblers), ev/deriv (splev), '
                 'BSplineFunc.grid_eval/jacobian/hessian/pointwise_*/__call__ in 1-D and 2-D, also with int64/int32/float32 coefficient arrays.  '
+                'histories: pairs of different knot vectors with knots < 1e-8 apart evaluated alternately at identical nodes (stateless model of the '
+                'current one); collocation_derivs results after the caller edited one returned matrix in place.  '
                 'non-trivial = degree >= 1 and >= 2 spans.  plus a probe of degrees 13..16 (C int `fac`).')
     # ---- probe (subprocess, first): scipy's splev(der>=1) supports degree <= 5 only (FITPACK splder) and kills the interpreter beyond;
     # bspline.deriv used to delegate to it for every degree (repaired in /repo 3311b35).  Only if the probe passes is
@@ -476,6 +478,168 @@ def run(ctx):
     for it in range(nkv):
         one(it)
     ctx.count('evaluation points', npts)
+
+    # ------------------------------------------------------------------ call histories (state between calls, ownership of results)
+    def dense_rows(C, KVo, pts, fa_):
+        """per-row view of a (sparse) collocation-type matrix through its dense form: the p+1 values starting at the first active
+        index; everything else must be exactly zero"""
+        D = np.asarray(C.toarray(), dtype=float)
+        pp = KVo.p
+        if D.shape != (len(pts), KVo.numdofs):
+            raise ValueError('shape')
+        V = np.empty((len(pts), pp + 1))
+        for j in range(len(pts)):
+            rows = np.arange(fa_[j], fa_[j] + pp + 1)
+            if np.any(np.delete(D[j], rows) != 0):
+                raise ValueError('nonzero entries outside the p+1 active columns')
+            V[j] = D[j, rows]
+        return V
+
+    def add_sets(KVo, karr, pts, ndmax, named, default, info):
+        """named: list of (name, nd_i, thunk -> array (nd_i+1, m, p+1)); one `rows` request against the stateless model of `karr`"""
+        pp = KVo.p
+        fa_ = guarded(lambda: [int(KVo.first_active_at(float(u))) for u in pts])
+        names, oracles, sets = [], [], []
+        for nm, ndi, fn in named:
+            res = guarded(fn) if not isinstance(fa_, str) else fa_
+            ctx.count('history route ' + nm.split('[')[0])
+            if isinstance(res, str):
+                def raises(fn=fn):
+                    try:
+                        fn()
+                    except Exception as ex:
+                        return 'implementation raised %s: %s' % (type(ex).__name__, str(ex)[:200])
+                    return None
+                S.add('rows 0 0 0 0 0', 'impl-' + res, nm, raises, info)
+                continue
+            V = np.array(res, dtype=float)
+            names.append(nm)
+            oracles.append(rows_oracle(karr, pp, pts, ndi, lambda j, V=V, fa_=fa_: (fa_[j], V[:, j, :])))
+            sets.append('%d %s %s' % (ndi, plist(fa_), plist(V.ravel(), frac)))
+        if sets:
+            S.add('rows %d %d %s %s %d %s' % (pp, ndmax, plist(karr, frac), plist(pts, frac), len(sets), ' '.join(sets)),
+                  'idx=%s sets=%s spec=ok' % (plist(fa_), ' '.join(['ok'] * len(sets))), verdict_kind(names, oracles, default), None, info)
+
+    def near_pair(it):
+        """two different open knot vectors of the same degree and length whose knots differ by < 1e-8"""
+        pp = int(rng.integers(0, 4))
+        if it % 2 == 0:
+            # a tiny span placed differently (interior knots t0, t0+8e-9 resp. t0+4e-9, t0+8e-9)
+            t0 = float(rng.choice([0.5, 0.375, 0.6]))
+            e0, e1 = (pp + 1) * [0.0], (pp + 1) * [1.0]
+            kA = np.array(e0 + [0.25, t0, t0 + 8e-9, 0.75] + e1)
+            kB = np.array(e0 + [0.25, t0 + 4e-9, t0 + 8e-9, 0.75] + e1)
+            extra = [t0, t0 + 2e-9, t0 + 4e-9, t0 + 6e-9, t0 + 8e-9]
+        else:
+            kA, _, _ = gen_kv(rng, pmax=3, maxspans=5, style=str(rng.choice(['uniform', 'int8', 'dyadic'])))
+            # degree = multiplicity of the first knot - 1
+            pp = int(np.sum(kA == kA[0])) - 1
+            kB = kA.copy()
+            mesh = np.unique(kA)
+            extra = []
+            for x in mesh[1:-1]:
+                dlt = float(rng.choice([-3e-9, -1e-9, 2e-9, 5e-9])) * max(1.0, abs(x))
+                kB[kA == x] = x + dlt
+                extra += [x, x + dlt, x + dlt / 2]
+        mesh = np.unique(np.concatenate((kA, kB)))
+        pts = np.unique(np.concatenate(([mesh[0], mesh[-1]], extra, (mesh[:-1] + mesh[1:]) / 2, rng.uniform(mesh[0], mesh[-1], size=2))))
+        pts = pts[(pts >= mesh[0]) & (pts <= mesh[-1])]
+        if len(pts) > 14:
+            keep = np.isin(pts, extra) | np.isin(pts, [mesh[0], mesh[-1]])
+            rest = pts[~keep]
+            pts = np.concatenate((pts[keep], rest[np.sort(rng.permutation(len(rest))[:max(0, 14 - int(keep.sum()))])]))
+        return np.ascontiguousarray(kA, dtype=float), np.ascontiguousarray(kB, dtype=float), pp, np.ascontiguousarray(pts)
+
+    npairs = 40 if quick else 600
+    for it in range(npairs):
+        kA, kB, pp, pts = near_pair(it)
+        if np.array_equal(kA, kB) or np.any(np.diff(kB) < 0):
+            continue
+        objs = {'A': bspline.KnotVector(kA.copy(), pp), 'B': bspline.KnotVector(kB.copy(), pp)}
+        arrs = {'A': kA, 'B': kB}
+        cpair = rng.integers(-5, 6, size=objs['A'].numdofs).astype(float)
+        ndp = int(rng.integers(1, pp + 3))
+        for step, which in enumerate(['A', 'B', 'A', 'B', 'B', 'A']):
+            KVo, karr = objs[which], arrs[which]
+            info_h = {'history': 'nearly equal knot vectors at identical nodes', 'step': '%d:%s' % (step, which), 'kvA': kA.tolist(), 'kvB': kB.tolist(),
+                      'p': pp, 'nodes': pts.tolist()}
+            fa_now = guarded(lambda: [int(KVo.first_active_at(float(u))) for u in pts])
+
+            def r_coll(KVo=KVo, fa_now=fa_now):
+                C = bspline.collocation(KVo, pts)
+                V = dense_rows(C, KVo, pts, fa_now)
+                C.data[:] = 0            # the caller may do what it likes with ITS matrix
+                return V[None]
+
+            def r_cd(KVo=KVo, fa_now=fa_now):
+                Cs = bspline.collocation_derivs(KVo, pts, ndp)
+                return np.stack([dense_rows(C, KVo, pts, fa_now) for C in Cs])
+
+            add_sets(KVo, karr, pts, ndp, [('collocation[near-pair %s]' % which, 0, r_coll), ('collocation_derivs[near-pair %s]' % which, ndp, r_cd),
+                                         ('active_deriv[near-pair %s]' % which, ndp, (lambda KVo=KVo: np.asarray(bspline.active_deriv(KVo, pts, ndp)).swapaxes(1, 2)))],
+                     'near-pair', info_h)
+            # spline evaluation routes of a function over the current knot vector
+            Fp = bspline.BSplineFunc(KVo, cpair)
+            names, oracles, sets = [], [], []
+            for nm, kk, fn in (('grid_eval[near-pair %s]' % which, 0, lambda Fp=Fp: Fp.grid_eval((pts,))),
+                               ('grid_jacobian[near-pair %s]' % which, 1, lambda Fp=Fp: Fp.grid_jacobian((pts,))),
+                               ('pointwise_eval[near-pair %s]' % which, 0, lambda Fp=Fp: Fp.pointwise_eval((pts,)))):
+                y = guarded(lambda fn=fn: np.asarray(fn(), dtype=float).ravel())
+                orc = make_spl_oracle(karr, pp, cpair, pts, kk, fn)
+                if isinstance(y, str) or y.size != len(pts):
+                    S.add('rows 0 0 0 0 0', 'impl-' + str(y)[:40], nm, orc, info_h)
+                    continue
+                names.append(nm); oracles.append(orc); sets.append('%d %d %s' % (F_TP, kk, plist(y, frac)))
+            if sets:
+                S.add('spl %d %s %s %s %d %s' % (pp, plist(karr, frac), plist(cpair, frac), plist(pts, frac), len(sets), ' '.join(sets)),
+                      'sets=%s' % ' '.join(['ok'] * len(sets)), verdict_kind(names, oracles, 'near-pair-eval'), None, info_h)
+        ctx.count('near-pair histories')
+
+    # ownership of the results of collocation_derivs: the caller edits ONE returned matrix in place; the others must still be right
+    nown = 60 if quick else 800
+    for it in range(nown):
+        k, pp, style = gen_kv(rng, pmax=5, maxspans=5)
+        KVo = bspline.KnotVector(k.copy(), pp)
+        mesh = np.unique(k)
+        pts = np.ascontiguousarray(np.concatenate((mesh, (mesh[:-1] + mesh[1:]) / 2, rng.uniform(mesh[0], mesh[-1], size=2))))   # nodes on knots: stored zeros
+        ndo = int(rng.integers(1, pp + 3))
+        fa_now = guarded(lambda: [int(KVo.first_active_at(float(u))) for u in pts])
+        victim = int(rng.integers(0, ndo + 1))
+        opname = str(rng.choice(['eliminate_zeros', 'prune', 'sort_indices', 'sum_duplicates', 'data*=2', 'data[:]=0', 'setdiag0', 'eliminate_zeros']))
+        holder = {}
+
+        def before():
+            holder['Cs'] = bspline.collocation_derivs(KVo, pts, ndo)
+            return np.stack([dense_rows(C, KVo, pts, fa_now) for C in holder['Cs']])
+
+        def after():
+            Cs = holder['Cs']
+            C = Cs[victim]
+            if opname == 'data*=2':
+                C.data *= 2
+            elif opname == 'data[:]=0':
+                C.data[:] = 0
+            elif opname == 'setdiag0':
+                C.data[:] = 0; C.eliminate_zeros()
+            else:
+                getattr(C, opname)()
+            # every matrix except the one the caller edited
+            out = []
+            for d_, Cd in enumerate(Cs):
+                if d_ == victim:
+                    out.append(holder['V0'][d_])        # not compared again: it is the caller's now
+                else:
+                    out.append(dense_rows(Cd, KVo, pts, fa_now))
+            return np.stack(out)
+
+        def before_keep():
+            V = before(); holder['V0'] = V
+            return V
+        info_o = {'history': 'collocation_derivs, then the caller applies `%s` in place to returned matrix #%d' % (opname, victim),
+                  'kv': k.tolist(), 'p': pp, 'nodes': pts.tolist(), 'derivs': ndo}
+        add_sets(KVo, k, pts, ndo, [('collocation_derivs[fresh]', ndo, before_keep),
+                                    ('collocation_derivs[after caller edited one matrix]', ndo, after)], 'ownership', info_o)
+        ctx.count('ownership probes op=' + opname)
 
     # ---- probe: degrees beyond 12 (C `int fac` = p!/(p-k)! overflows 32 bits from p = 13, k = 11)
     hi = Stream(ctx, 'drv_c02')
